@@ -132,10 +132,11 @@ U_NOTE = ("Trusted: TLC, the deterministic scheduler of harness B with pre-empti
           "(a C-level container operation is atomic), CPython.")
 T.update({
   "C25": ("model_checking", "4 C25",
-          "Signals.tla (registry append at the grain of single dictionary operations) is model-checked for the locked protocol; real concurrent uses of a "
+          "Signals.tla (registry append at the grain of single dictionary operations) is model-checked for the locked protocol and its four invariants are "
+          "proved with TLAPS for any number of threads and registrations (SignalsProof.tla, re-checked by tlapm in every run); real concurrent uses of a "
           "fresh registry (append, attribute access, Event(name), Event(number), name_for_signal, is_inner_signal) under random/PCT schedules and a "
           "systematic pre-emption-bounded exploration of all two-operation pairs are validated by TLC (one-to-one, stable, positive, no error).",
-          "TLC model checking of Signals.tla + TLC trace validation (SignalsTrace.tla) of real executions under controlled schedules"),
+          "TLC model checking of Signals.tla + TLAPS proof for any number of threads + TLC trace validation (SignalsTrace.tla) of real executions under controlled schedules"),
   "C26": ("other", "4 C26, 7",
           "The registry half of loads(dumps(e)) (same name; this process's number, registering if new) is decided by the TLA+ registry model over recorded "
           "round trips with generated names and JSON payloads; the payload half is an equality of canonical JSON texts evaluated by TLC on logged fields.",
